@@ -104,7 +104,7 @@ def solver_programs():
                 for gf in variants:
                     fn, sample, funcs = ps.make_step(method, sde_type, noise, d, m,
                                                      options={'grad_free': True} if gf else None)
-                    tol = 1e-12 if (method in ('milstein', 'log_ode') and not gf) else (4e-16 if method == 'srk' or gf else 0.0)
+                    tol = 1e-12 if (method in ('milstein', 'log_ode') and not gf) else (4e-15 if method == 'srk' or gf else 0.0)
                     P.append(Prog(step_name(method, sde_type, noise, d, m, gf), 'Steps', fn, sample, funcs=funcs, tol=tol,
                                   props=('C02',)))
     return P
@@ -134,8 +134,8 @@ def loop_programs():
             return dict(a=np.array([[rng.gauss(0, 1) for _ in range(d)]]), b=np.array([[rng.gauss(0, 1) for _ in range(d)]]),
                         rtol=rng.choice([1e-3, 1e-5, 0.0]), atol=rng.choice([1e-3, 1e-6]))
         return s
-    P.append(Prog('compute_error_1', 'Loop', lambda B: pl.compute_error(B, 1), s_err(1), props=('C14',), tol=4e-16))
-    P.append(Prog('compute_error_2', 'Loop', lambda B: pl.compute_error(B, 2), s_err(2), props=('C14',), tol=4e-16))
+    P.append(Prog('compute_error_1', 'Loop', lambda B: pl.compute_error(B, 1), s_err(1), props=('C14',), tol=4e-15))
+    P.append(Prog('compute_error_2', 'Loop', lambda B: pl.compute_error(B, 2), s_err(2), props=('C14',), tol=4e-15))
     return P
 
 
@@ -175,7 +175,7 @@ def batch_programs():
         variants = [False] + ([True] if method == 'milstein' and noise != 'additive' and d == 1 else [])
         for gf in variants:
             fn, sample, funcs = ps.make_step(method, sde_type, noise, d, m, options={'grad_free': True} if gf else None, batch=2)
-            tol = 1e-12 if (method in ('milstein', 'log_ode') and not gf) else (4e-16 if method == 'srk' or gf else 0.0)
+            tol = 1e-12 if (method in ('milstein', 'log_ode') and not gf) else (4e-15 if method == 'srk' or gf else 0.0)
             P.append(Prog(step_name(method, sde_type, noise, d, m, gf) + '_b2', 'Batch', fn, sample, funcs=funcs, tol=tol,
                           props=('C20',)))
 
